@@ -132,7 +132,6 @@ EXPORT errno_t _mbsrtowcs_s_chk(size_t *restrict retvalp,
 #endif
 {
     wchar_t *orig_dest;
-    mbstate_t orig_ps;
     errno_t rc;
 
     CHK_SRC_NULL("mbsrtowcs_s", retvalp)
@@ -182,7 +181,6 @@ EXPORT errno_t _mbsrtowcs_s_chk(size_t *restrict retvalp,
 
     /* hold base of dest in case src was not copied */
     orig_dest = dest;
-    memcpy(&orig_ps, ps, sizeof(orig_ps));
 
     /* never let libc store more than dmax wide characters */
     if (dest && len > dmax) {
@@ -201,21 +199,16 @@ EXPORT errno_t _mbsrtowcs_s_chk(size_t *restrict retvalp,
         rc = EOK;
     } else {
         if (dest) {
-            size_t tmp = 0;
-            errno = 0;
-            /* with NULL either 0 or -1 is returned */
-            if (*retvalp > RSIZE_MAX_WSTR) { /* else ESNOSPC */
-                tmp = mbsrtowcs(NULL, srcp, len - 1, &orig_ps);
-            }
-            rc = (tmp == 0) ? ESNOSPC : errno;
+            /* (size_t)-1: libc met an illegal sequence, else it ran out of space */
+            rc = (*retvalp == (size_t)-1) ? EILSEQ : ESNOSPC;
             /* the entire src must have been copied, if not reset dest
              * to null the string. (only with SAFECLIB_STR_NULL_SLACK) */
             handle_werror(orig_dest, dmax,
-                          !tmp ? "mbsrtowcs_s: not enough space for src"
-                               : "mbsrtowcs_s: illegal sequence",
+                          rc == ESNOSPC ? "mbsrtowcs_s: not enough space for src"
+                                        : "mbsrtowcs_s: illegal sequence",
                           rc);
         } else {
-            rc = ((size_t)*retvalp == 0) ? EOK : errno;
+            rc = (*retvalp == (size_t)-1) ? EILSEQ : EOK;
         }
     }
 
